@@ -147,13 +147,24 @@ def main(tier, replay=None):
                 args = [lang, main_path, out, "-q"]
                 if O:
                     args.append("-O")
+                ftoks = None
                 if F is not None:
-                    args += ["-F", ",".join(F)]
+                    # the spelling of the list: tight, or with blanks around the commas / the whole argument
+                    style = ("tight", "after", "around", "before", "edges")[(len(jobs) + si) % 5] if F else "tight"
+                    ftoks = []
+                    for i_, nm in enumerate(F):
+                        if i_:
+                            ftoks += {"tight": [","], "after": [",", " "], "around": [" ", ",", " "],
+                                      "before": [" ", ","], "edges": [","]}[style]
+                        ftoks.append(nm)
+                    if style in ("around", "edges") and F:
+                        ftoks = [" "] + ftoks + [" "]
+                    args += ["-F", "".join(ftoks)]
                 if endian != "both":
                     args += ["--endian", endian]
                 jobs.append((args, d))
                 metas.append({"si": si, "where": where, "pr": pr, "lang": lang, "O": O, "F": F, "endian": endian,
-                              "out": out, "args": args[:1] + args[3:]})
+                              "out": out, "args": args[:1] + args[3:], "ftoks": ftoks})
         res = comptrace.run_cli_many(jobs)
         # reference (unfiltered) analysis per (schema, lang, O, endian)
         ref = {}
@@ -166,6 +177,9 @@ def main(tier, replay=None):
         for m in metas:
             pr = m["pr"]
             cfg = {"lang": m["lang"], "O": m["O"], "F": m["F"] or [], "useF": m["F"] is not None, "check": False}
+            if m["ftoks"] is not None:
+                cfg["Ftoks"] = m["ftoks"]
+            rep.feature("F-spelling:" + ("none" if m["ftoks"] is None else "blanks" if " " in m["ftoks"] else "tight"))
             e = {"ev": "CliRun", "cfg": cfg, "exit": m["rc"], "nfiles": len(os.listdir(m["out"])),
                  "traceback": "Traceback (most recent call last)" in m["stderr"],
                  "ndiag": m["stderr"].count("error:") + (1 if m["stderr"].strip() else 0),
